@@ -637,7 +637,6 @@ func isRepresentative(v ssa.Value) bool {
 	return false
 }
 
-
 // sharedLoopBuffers: go statements inside a loop of f that receive (as an argument or captured variable) memory of a
 // byte buffer which is allocated outside that loop and which a Read*/Recv* call inside the loop fills.
 type sharedBuf struct {
